@@ -218,7 +218,7 @@ def tsv_encode_lazy(cell):
     for i, b in enumerate(cell):
         if b == 0x5C:
             nxt = cell[i + 1] if i + 1 < n else None
-            if nxt in (0x74, 0x6E, 0x72, 0x5C):
+            if nxt in (0x74, 0x6E, 0x72, 0x5C, 0x09, 0x0A, 0x0D):   # (the last three are themselves written as backslash escapes)
                 out += b"\\\\"
             else:
                 out.append(b)
